@@ -123,4 +123,8 @@ func setUpColog(debug bool) {
 	}
 	colog.SetFlags(log.Lshortfile)
 	colog.SetFormatter(&colog.StdFormatter{Colors: false})
+	// pass 1 and code generation report many problems as "Error: ..." / "Error ...": without these
+	// headers colog prints them at info level, as if nothing had gone wrong
+	colog.AddHeader("Error: ", colog.LError)
+	colog.AddHeader("Error ", colog.LError)
 }
